@@ -208,6 +208,77 @@ _old_label = seqx.label
 seqx.label = label
 
 
+def failed_commit_worker(ctx, job):
+    """'After a failed commit': the commit of a writer fails because moving the finished temp file to its content
+    address fails (every rename of the commit answered with EXDEV / EIO / EACCES / ENOSPC by the fault injector). Once the
+    call has returned (and the background work has finished) no temp file of it remains and no lookup has changed."""
+    import json as _json
+    from vlib import fsx
+    res = V.new()
+    flavour = job["flavour"]
+    side = "s" if flavour == "sync" else "a"
+    pre = "sw_" if side == "s" else "aw_"
+    cache = ctx.path("c14-failed-commit")
+    a, b, c = tables.key_family()
+    for keyed in (True, False):
+        for declared in (None, 10):
+            for prior in ("cold", "warm"):
+                fsutil.wipe(cache)
+                srv0 = ctx.srv("sync")
+                if prior == "warm":
+                    wr.do_write(srv0, cache, side="s", entry="oneshot", key=b, n=8, tag=5)
+                init = fsutil.snapshot(cache)
+                h = {"ref": 0}
+                req = {"op": pre + "open", "cache": cache, "opts": {} if declared is None else {"size": declared}}
+                if keyed:
+                    req["key"] = a
+                prog = [req, {"op": "w_write_all", "h": h, "data": {"gen": [10, 123]}}, {"op": "w_commit", "h": h}]
+                pf = ctx.path("prog-c14fc.json")
+                with open(pf, "w") as fh:
+                    _json.dump(prog, fh)
+                spec = {"roots": [cache], "actors": [fsx.actor(flavour, "F", pf)], "timeout_ms": 15000}
+                probe = fsx.run(spec, ctx.dir)
+                steps = [s_ for s_ in probe["steps"] if s_.get("step") is not None]
+                renames = [i for i, s_ in enumerate(steps) if s_["sys"] in ("rename", "renameat", "renameat2")]
+                for r in renames:
+                    for errno_ in (18, 5, 13, 28):
+                        fsutil.restore(cache, init)
+                        if init is None:
+                            fsutil.wipe(cache)
+                        spec2 = dict(spec)
+                        spec2["faults"] = [{"step": r, "errno": errno_}]
+                        rep = fsx.confirmed(lambda: fsx.run(spec2, ctx.dir))
+                        res["evals"] += 1
+                        res["distinct"].add(V.h("failed-commit", flavour, keyed, declared, prior, r, errno_))
+                        case = {"flavour": flavour, "keyed": keyed, "declared": declared, "prior": prior, "failing_step": r, "errno": errno_}
+                        replay = {"engine": "fsx", "mode": "fault", "case": case}
+                        sig = "failed-commit:%s/%s" % ("keyed" if keyed else "hash", flavour)
+                        if rep["status"] != "ok":
+                            V.violation(res, sig + ":" + rep["status"], "execution status %s" % rep["status"], replay)
+                            continue
+                        out = fsx.replies(rep, 0)
+                        last = out[-1] if out else {"missing": True}
+                        V.outcome(res, "failed-commit:%s" % classify(last))
+                        # the temp area: nothing of this writer may stay (horizon for background work: 2 s)
+                        left = None
+                        for _ in range(40):
+                            snap = fsutil.snapshot(cache) or {}
+                            left = [x for x in snap if x.startswith("tmp/")]
+                            if not left:
+                                break
+                            time.sleep(0.05)
+                        if left:
+                            V.violation(res, sig + ":temp-file-left", "after a commit that replied %s (rename answered errno %d) the temp area holds %s" % (classify(last), errno_, left), replay)
+                        if "ok" not in last:
+                            srv = ctx.srv("sync")
+                            m = srv.call({"op": "metadata_sync", "cache": cache, "key": a})
+                            if m.get("ok") is not None:
+                                V.violation(res, sig + ":failed-but-mapped", "the commit failed (%s) but the key is mapped: %r" % (classify(last), m), replay)
+    fsutil.wipe(cache)
+    res["samples"].append({"kind": "failed commit (publishing rename fails)", "flavour": flavour})
+    return res
+
+
 def inflight_worker(ctx, job):
     """poll_write once, then drop (a) at once / (b) after the blocking task completed; wait for the background
     work; tmp/ must be empty and lookups unchanged."""
@@ -324,6 +395,8 @@ def inflight_fsx_worker(ctx, job):
 
 
 def _inflight(ctx, job):
+    if job.get("failed_commit"):
+        return failed_commit_worker(ctx, job)
     return inflight_fsx_worker(ctx, job) if job.get("fsx") else inflight_worker(ctx, job)
 
 
@@ -334,7 +407,8 @@ def main(tier, seed=0):
     old = c16.worker
     c16.worker = _inflight
     try:
-        total, merr_all = c16._collect(tier, [{"flavour": "astd"}, {"flavour": "tok"}, {"flavour": "astd", "fsx": True}, {"flavour": "tok", "fsx": True}], seed)
+        total, merr_all = c16._collect(tier, [{"flavour": "astd"}, {"flavour": "tok"}, {"flavour": "astd", "fsx": True}, {"flavour": "tok", "fsx": True},
+                                                    {"flavour": "sync", "failed_commit": True}, {"flavour": "astd", "failed_commit": True}, {"flavour": "tok", "failed_commit": True}], seed)
     finally:
         c16.worker = old
     total["extra"] = {"runs": {}}
@@ -351,7 +425,7 @@ def main(tier, seed=0):
                       rule="BFS state = (canonical disk, model); alphabet = 7 ordinary actions (writes d1/d2 under a/b, removals, remove_hash) + abandonment episodes "
                            "[sync/async x keyed/by-address x bytes equal to d1 / fresh x declared size none/correct/wrong x dropped after creation/1 chunk/2 chunks/flush/close] + "
                            "rejected commits [size, integrity, declared > 1 MiB, overflow in a later chunk] + linkers (link_to) opened, read (nothing / partly / fully) and dropped; after every transition lookups, listing, tmp/ and the content file set are compared with the model; "
-                           "plus in-flight abandonment (poll_write once, drop before/after the blocking task completes) on async-std and tokio",
+                           "plus in-flight abandonment (poll_write once, drop before/after the blocking task completes) on async-std and tokio, plus commits that fail because the publishing rename fails (fault injection, 4 errnos, 3 flavours)",
                       technique="explicit-state breadth-first model checking of on-disk states with abandonment episodes as actions; in-flight case: both completion orders forced by the ptrace controller (fsx hold rules)",
                       assumptions=["in-flight case: the two orders (drop before / after the blocking task completes) are forced by fsx hold rules for plain writes (and checked from the step trace); for memory-mapped declared sizes, which issue no write system call, by a 60 ms delay",
                                    "data of a rejected commit may remain retrievable by address (it is mapped by no key)"],
